@@ -1,5 +1,1280 @@
+(* C12 proofs: termination, absence of IndexError, plain text, well-formedness for the three parser models. *)
 From Coq Require Import List ZArith String Bool Arith Lia.
 From Verif Require Import Lib.Sexp Model.C12_docstrings.
 Import ListNotations.
 Open Scope list_scope. Open Scope nat_scope.
-Lemma stub : True. Proof. exact I. Qed.
+
+(* ================= generic facts about fuelled loops ================= *)
+Section IterFacts.
+  Variable St : Type.
+  Variable step : St -> outcome St.
+
+  Lemma iter_fuel_sufficient :
+    forall (m : St -> nat),
+      (forall s s', step s = Next s' -> m s' < m s) ->
+      (forall s, step s <> Fail OutOfFuel) ->
+      forall fuel s, m s < fuel -> iter step fuel s <> Err OutOfFuel.
+  Proof.
+    intros m Hm Hnf. induction fuel as [|f IH]; intros s Hlt; [lia|].
+    simpl. destruct (step s) as [s'|r|e] eqn:E.
+    - apply IH. specialize (Hm _ _ E). lia.
+    - discriminate.
+    - intro H. inversion H. subst. exact (Hnf s E).
+  Qed.
+
+  Lemma iter_invariant :
+    forall (P : St -> Prop),
+      (forall s s', P s -> step s = Next s' -> P s') ->
+      forall fuel s r, P s -> iter step fuel s = Ok r -> exists s0, P s0 /\ step s0 = Done r.
+  Proof.
+    intros P HP. induction fuel as [|f IH]; intros s r Hs H; simpl in H; [discriminate|].
+    destruct (step s) as [s'|r'|e] eqn:E.
+    - exact (IH s' r (HP _ _ Hs E) H).
+    - inversion H; subst. exists s. auto.
+    - discriminate.
+  Qed.
+
+  Lemma iter_no_fail :
+    forall (P : St -> Prop),
+      (forall s s', P s -> step s = Next s' -> P s') ->
+      (forall s e, P s -> step s <> Fail e) ->
+      forall fuel s e, P s -> iter step fuel s = Err e -> e = OutOfFuel.
+  Proof.
+    intros P HP HF. induction fuel as [|f IH]; intros s e Hs H; simpl in H.
+    - inversion H. reflexivity.
+    - destruct (step s) as [s'|r'|e'] eqn:E.
+      + exact (IH s' e (HP _ _ Hs E) H).
+      + discriminate.
+      + exfalso. exact (HF s e' Hs E).
+  Qed.
+End IterFacts.
+
+(* ================= small list facts ================= *)
+Lemma nth_error_skipn : forall {A} (l : list A) k i, nth_error (skipn k l) i = nth_error l (k + i).
+Proof.
+  induction l as [|x l IH]; intros k i.
+  - rewrite skipn_nil. destruct i; destruct (k + _); reflexivity.
+  - destruct k; simpl; [reflexivity|]. apply IH.
+Qed.
+
+Lemma skipn_length_le : forall {A} (l : list A) k, List.length (skipn k l) = List.length l - k.
+Proof. intros. apply skipn_length. Qed.
+
+(* ================= skip_blank ================= *)
+Lemma skip_blank_some :
+  forall rest o o' l r, skip_blank rest o = Some (o', l, r) ->
+    o <= o' /\ o' < o + List.length rest /\ blank l = false /\
+    nth_error rest (o' - o) = Some l /\ r = skipn (S (o' - o)) rest /\
+    (forall i x, i < o' - o -> nth_error rest i = Some x -> blank x = true).
+Proof.
+  induction rest as [|x rest IH]; intros o o' l r H; simpl in H; [discriminate|].
+  destruct (blank x) eqn:B.
+  - apply IH in H. destruct H as (H1 & H2 & H3 & H4 & H5 & H6).
+    replace (o' - o) with (S (o' - S o)) by lia.
+    split; [lia|]. split; [simpl; lia|]. split; [exact H3|]. split; [exact H4|]. split; [exact H5|].
+    intros i y Hi Hy. destruct i as [|i]; simpl in Hy.
+    + inversion Hy; subst; exact B.
+    + apply (H6 i y); [lia|exact Hy].
+  - inversion H; subst. replace (o' - o') with 0 by lia.
+    split; [lia|]. split; [simpl; lia|]. split; [exact B|]. split; [reflexivity|]. split; [reflexivity|].
+    intros i y Hi. lia.
+Qed.
+
+Lemma skip_blank_none :
+  forall rest o, skip_blank rest o = None -> forall i x, nth_error rest i = Some x -> blank x = true.
+Proof.
+  induction rest as [|y rest IH]; intros o H i x Hx.
+  - destruct i; discriminate.
+  - simpl in H. destruct (blank y) eqn:B; [|discriminate].
+    destruct i; simpl in Hx.
+    + inversion Hx; subst; auto.
+    + eapply IH; eauto.
+Qed.
+
+(* ================= Google readers: the offset contract ================= *)
+Lemma g_items_loop_off :
+  forall rest o ind cur acc items n,
+    g_items_loop rest o ind cur acc = (items, n) -> o <= n /\ n <= o + List.length rest.
+Proof.
+  induction rest as [|l rest IH]; intros o ind cur acc items n H; cbn [g_items_loop] in H.
+  - inversion H; subst. simpl. lia.
+  - destruct (blank l); [apply IH in H; simpl; lia|].
+    destruct (ind * 2 <=? sp l); [apply IH in H; simpl; lia|].
+    destruct (S ind <=? sp l); [apply IH in H; simpl; lia|].
+    destruct (ind <=? sp l); [apply IH in H; simpl; lia|].
+    inversion H; subst. simpl. lia.
+Qed.
+
+Lemma g_items_loop_len :
+  forall rest o ind cur acc items n,
+    g_items_loop rest o ind cur acc = (items, n) -> List.length items >= S (List.length acc).
+Proof.
+  induction rest as [|l rest IH]; intros o ind cur acc items n H; cbn [g_items_loop] in H.
+  - assert (E : items = rev (cur :: acc)) by (inversion H; reflexivity).
+    rewrite E, rev_length. simpl. lia.
+  - destruct (blank l); [apply IH in H; lia|].
+    destruct (ind * 2 <=? sp l); [apply IH in H; lia|].
+    destruct (S ind <=? sp l); [apply IH in H; lia|].
+    destruct (ind <=? sp l); [apply IH in H; simpl in H; lia|].
+    assert (E : items = rev (cur :: acc)) by (inversion H; reflexivity).
+    rewrite E, rev_length. simpl. lia.
+Qed.
+
+Lemma g_block_loop_off :
+  forall rest o ind, o <= g_block_loop rest o ind /\ g_block_loop rest o ind <= o + List.length rest.
+Proof.
+  induction rest as [|l rest IH]; intros o ind; simpl; [lia|].
+  destruct ((ind <=? sp l) || blank l); [|lia].
+  specialize (IH (S o) ind). lia.
+Qed.
+
+(* reader called at [offset] returns at least offset - 1 and stays inside the docstring *)
+Lemma g_read_block_items_off :
+  forall lines offset items off',
+    g_read_block_items lines offset = Ok (items, off') ->
+    offset <= S off' /\ off' <= Nat.max offset (List.length lines).
+Proof.
+  intros lines offset items off' H. unfold g_read_block_items in H.
+  destruct (List.length lines <=? offset) eqn:L.
+  - inversion H; subst. lia.
+  - apply Nat.leb_gt in L.
+    destruct (skip_blank (skipn offset lines) offset) as [[[o l] r]|] eqn:SB; [|discriminate].
+    apply skip_blank_some in SB. destruct SB as (S1 & S2 & _ & _ & S5 & _).
+    rewrite skipn_length in S2.
+    destruct (ws l =? 0).
+    + inversion H; subst. lia.
+    + destruct (g_items_loop r (S o) (ws l) (o, colon l) []) as [it n] eqn:G.
+      inversion H; subst. apply g_items_loop_off in G.
+      rewrite skipn_length, skipn_length in G. lia.
+Qed.
+
+Lemma g_read_block_off :
+  forall lines offset b off',
+    g_read_block lines offset = Ok (b, off') ->
+    offset <= S off' /\ off' <= Nat.max offset (List.length lines).
+Proof.
+  intros lines offset b off' H. unfold g_read_block in H.
+  destruct (List.length lines <=? offset) eqn:L.
+  - inversion H; subst. lia.
+  - apply Nat.leb_gt in L.
+    destruct (skip_blank (skipn offset lines) offset) as [[[o l] r]|] eqn:SB; [|discriminate].
+    apply skip_blank_some in SB. destruct SB as (S1 & S2 & _ & _ & S5 & _).
+    rewrite skipn_length in S2.
+    destruct (ws l =? 0).
+    + inversion H; subst. lia.
+    + inversion H; subst.
+      pose proof (g_block_loop_off (skipn (S (o - offset)) (skipn offset lines)) (S o) (ws l)) as G.
+      rewrite skipn_length, skipn_length in G. lia.
+Qed.
+
+Lemma g_items_maybe_off :
+  forall lines offset m items off',
+    g_items_maybe lines offset m = Ok (items, off') ->
+    offset <= S off' /\ off' <= Nat.max offset (List.length lines).
+Proof.
+  intros lines offset m items off' H. unfold g_items_maybe in H. destruct m.
+  - eapply g_read_block_items_off; eauto.
+  - destruct (g_read_block lines offset) as [[b off]|e] eqn:R; [|discriminate].
+    apply g_read_block_off in R. destruct b; inversion H; subst; auto.
+Qed.
+
+Lemma g_reader_off :
+  forall lines o k offset n off',
+    g_reader lines o k offset = Ok (n, off') ->
+    offset <= S off' /\ off' <= Nat.max offset (List.length lines).
+Proof.
+  intros lines o k offset n off' H. unfold g_reader in H.
+  destruct k;
+    try (destruct (g_read_block_items lines offset) as [[it off]|e] eqn:R; [|discriminate];
+         inversion H; subst; eapply g_read_block_items_off; eauto);
+    try (destruct (g_items_maybe lines offset _) as [[it off]|e] eqn:R; [|discriminate];
+         inversion H; subst; eapply g_items_maybe_off; eauto).
+  destruct (g_read_block lines offset) as [[b off]|e] eqn:R; [|discriminate].
+  inversion H; subst. eapply g_read_block_off; eauto.
+Qed.
+
+(* readers only fail with IndexError, and only when every remaining line is blank *)
+Lemma g_read_block_items_err :
+  forall lines offset e, g_read_block_items lines offset = Err e ->
+    e = IndexError /\ skip_blank (skipn offset lines) offset = None.
+Proof.
+  intros lines offset e H. unfold g_read_block_items in H.
+  destruct (List.length lines <=? offset); [discriminate|].
+  destruct (skip_blank (skipn offset lines) offset) as [[[o l] r]|] eqn:SB.
+  - destruct (ws l =? 0); [discriminate|].
+    destruct (g_items_loop r (S o) (ws l) (o, colon l) []); discriminate.
+  - inversion H; auto.
+Qed.
+
+Lemma g_read_block_err :
+  forall lines offset e, g_read_block lines offset = Err e ->
+    e = IndexError /\ skip_blank (skipn offset lines) offset = None.
+Proof.
+  intros lines offset e H. unfold g_read_block in H.
+  destruct (List.length lines <=? offset); [discriminate|].
+  destruct (skip_blank (skipn offset lines) offset) as [[[o l] r]|] eqn:SB.
+  - destruct (ws l =? 0); discriminate.
+  - inversion H; auto.
+Qed.
+
+Lemma g_reader_err :
+  forall lines o k offset e, g_reader lines o k offset = Err e ->
+    e = IndexError /\ skip_blank (skipn offset lines) offset = None.
+Proof.
+  intros lines o k offset e H. unfold g_reader, g_items_maybe in H.
+  destruct k;
+    try (destruct (g_read_block_items lines offset) as [[it off]|e'] eqn:R; [discriminate|];
+         inversion H; subst; eapply g_read_block_items_err; eauto).
+  - destruct (g_read_block lines offset) as [[b off]|e'] eqn:R; [discriminate|].
+    inversion H; subst. eapply g_read_block_err; eauto.
+  - destruct (o_ret_multi o).
+    + destruct (g_read_block_items lines offset) as [[it off]|e'] eqn:R; [discriminate|].
+      inversion H; subst; eapply g_read_block_items_err; eauto.
+    + destruct (g_read_block lines offset) as [[b off]|e'] eqn:R.
+      * destruct b; discriminate.
+      * inversion H; subst. eapply g_read_block_err; eauto.
+  - destruct (o_ret_multi o).
+    + destruct (g_read_block_items lines offset) as [[it off]|e'] eqn:R; [discriminate|].
+      inversion H; subst; eapply g_read_block_items_err; eauto.
+    + destruct (g_read_block lines offset) as [[b off]|e'] eqn:R.
+      * destruct b; discriminate.
+      * inversion H; subst. eapply g_read_block_err; eauto.
+  - destruct (o_rec_multi o).
+    + destruct (g_read_block_items lines offset) as [[it off]|e'] eqn:R; [discriminate|].
+      inversion H; subst; eapply g_read_block_items_err; eauto.
+    + destruct (g_read_block lines offset) as [[b off]|e'] eqn:R.
+      * destruct b; discriminate.
+      * inversion H; subst. eapply g_read_block_err; eauto.
+Qed.
+
+(* ================= Google main loop ================= *)
+Lemma content_not_all_blank :
+  forall lines off,
+    indented_at lines (S off) || indented_at lines (S (S off)) = true ->
+    skip_blank (skipn (S off) lines) (S off) <> None.
+Proof.
+  intros lines off H N.
+  pose proof (skip_blank_none _ _ N) as A.
+  apply orb_true_iff in H. destruct H as [H|H]; unfold indented_at in H.
+  - destruct (nth_error lines (S off)) as [x|] eqn:E; [|discriminate].
+    specialize (A 0 x). rewrite nth_error_skipn, Nat.add_0_r in A. specialize (A E).
+    rewrite A in H. discriminate.
+  - destruct (nth_error lines (S (S off))) as [x|] eqn:E; [|discriminate].
+    specialize (A 1 x). rewrite nth_error_skipn in A. replace (S off + 1) with (S (S off)) in A by lia.
+    specialize (A E). rewrite A in H. discriminate.
+Qed.
+
+Ltac break_match_in H :=
+  match type of H with
+  | context [match ?x with _ => _ end] => destruct x eqn:?
+  end.
+
+Lemma g_step_next :
+  forall lines o st st', g_step lines o st = Next st' ->
+    g_off st < g_off st' /\ g_off st < List.length lines.
+Proof.
+  intros lines o st st' H. unfold g_step in H. cbv zeta in H.
+  destruct (nth_error lines (g_off st)) as [l|] eqn:N; [|discriminate].
+  assert (L : g_off st < List.length lines) by (apply nth_error_Some; congruence).
+  split; [|exact L].
+  repeat break_match_in H; try discriminate; inversion H; subst; simpl; try lia;
+    repeat match goal with
+           | R : g_reader _ _ _ _ = Ok _ |- _ => apply g_reader_off in R
+           | R : g_read_block _ _ = Ok _ |- _ => apply g_read_block_off in R
+           end; lia.
+Qed.
+
+Lemma line_above_some :
+  forall lines off l, nth_error lines off = Some l -> line_above_blank lines off <> None.
+Proof.
+  intros lines off l H. destruct off as [|p]; simpl; [discriminate|].
+  destruct (nth_error lines p) eqn:E; [discriminate|].
+  apply nth_error_None in E. assert (S p < List.length lines) by (apply nth_error_Some; congruence). lia.
+Qed.
+
+Lemma g_step_no_fail : forall lines o st e, g_step lines o st <> Fail e.
+Proof.
+  intros lines o st e H. unfold g_step in H. cbv zeta in H.
+  destruct (nth_error lines (g_off st)) as [l|] eqn:N; [|discriminate].
+  destruct (g_code st); [discriminate|].
+  destruct (fence l); [discriminate|].
+  destruct (gadm l) eqn:GA; [discriminate| |].
+  - destruct (line_above_blank lines (g_off st)) as [above|] eqn:AB; [|exact (line_above_some _ _ _ N AB)].
+    destruct (negb (indented_at lines (S (g_off st)) || indented_at lines (S (S (g_off st))))) eqn:C; [discriminate|].
+    apply negb_false_iff in C.
+    destruct (negb above || _); [discriminate|].
+    destruct (g_read_block lines (S (g_off st))) as [[b off']|e'] eqn:R.
+    + destruct b as [[[? ?] ?]|]; discriminate.
+    + apply g_read_block_err in R. destruct R as [_ R]. exact (content_not_all_blank _ _ C R).
+  - destruct (line_above_blank lines (g_off st)) as [above|] eqn:AB; [|exact (line_above_some _ _ _ N AB)].
+    destruct (negb (indented_at lines (S (g_off st)) || indented_at lines (S (S (g_off st))))) eqn:C; [discriminate|].
+    apply negb_false_iff in C.
+    destruct (negb above || _); [discriminate|].
+    destruct (g_reader lines o k (S (g_off st))) as [[n off']|e'] eqn:R; [discriminate|].
+    apply g_reader_err in R. destruct R as [_ R]. exact (content_not_all_blank _ _ C R).
+Qed.
+
+Lemma google_terminates : forall lines o p, g_parse lines o p <> Err OutOfFuel.
+Proof.
+  intros lines o p H. unfold g_parse in H.
+  destruct (iter (g_step lines o) (S (List.length lines)) (mkGst (g_start o p) false [] [])) as [st|e] eqn:I; [discriminate|].
+  inversion H; subst.
+  revert I. apply (iter_fuel_sufficient gst (g_step lines o) (fun st => List.length lines - g_off st)).
+  - intros s s' E. apply g_step_next in E. lia.
+  - intros s. apply g_step_no_fail.
+  - simpl. lia.
+Qed.
+
+Lemma google_total : forall lines o p, exists secs, g_parse lines o p = Ok secs.
+Proof.
+  intros lines o p. destruct (g_parse lines o p) as [secs|e] eqn:G; [eauto|].
+  exfalso. unfold g_parse in G.
+  destruct (iter (g_step lines o) (S (List.length lines)) (mkGst (g_start o p) false [] [])) as [st|e'] eqn:I; [discriminate|].
+  assert (e' = OutOfFuel).
+  { apply (iter_no_fail gst (g_step lines o) (fun _ => True)) with (fuel := S (List.length lines)) (s := mkGst (g_start o p) false [] []); auto.
+    intros s e0 _. apply g_step_no_fail. }
+  subst. apply (google_terminates lines o p). unfold g_parse. rewrite I. reflexivity.
+Qed.
+
+(* ================= Numpy readers and main loop ================= *)
+Lemma n_items_loop_off :
+  forall rest o cur acc items n,
+    n_items_loop rest o cur acc = (items, n) -> o <= n /\ n <= o + List.length rest.
+Proof.
+  induction rest as [|l rest IH]; intros o cur acc items n H; cbn [n_items_loop] in H.
+  - inversion H; subst. simpl. lia.
+  - destruct (blank l); [apply IH in H; simpl; lia|].
+    destruct (4 <=? sp l); [apply IH in H; simpl; lia|].
+    destruct (1 <=? sp l); [apply IH in H; simpl; lia|].
+    destruct (next_is_dash rest); [inversion H; subst; simpl; lia|].
+    apply IH in H; simpl; lia.
+Qed.
+
+Lemma n_items_loop_len :
+  forall rest o cur acc items n,
+    n_items_loop rest o cur acc = (items, n) -> List.length items >= S (List.length acc).
+Proof.
+  induction rest as [|l rest IH]; intros o cur acc items n H; cbn [n_items_loop] in H.
+  - assert (E : items = rev (cur :: acc)) by (inversion H; reflexivity).
+    rewrite E, rev_length. simpl. lia.
+  - destruct (blank l); [apply IH in H; lia|].
+    destruct (4 <=? sp l); [apply IH in H; lia|].
+    destruct (1 <=? sp l); [apply IH in H; lia|].
+    destruct (next_is_dash rest).
+    + assert (E : items = rev (cur :: acc)) by (inversion H; reflexivity).
+      rewrite E, rev_length. simpl. lia.
+    + apply IH in H. simpl in H. lia.
+Qed.
+
+Lemma n_block_loop_off :
+  forall rest o, o <= n_block_loop rest o /\ n_block_loop rest o <= o + List.length rest.
+Proof.
+  induction rest as [|l rest IH]; intros o; cbn [n_block_loop]; [simpl; lia|].
+  destruct (blank l && next_is_dash rest); [simpl; lia|].
+  destruct (blank l && next2_is_dash rest); [simpl; lia|].
+  specialize (IH (S o)). simpl. lia.
+Qed.
+
+Lemma n_read_block_items_off :
+  forall lines offset items off',
+    n_read_block_items lines offset = Ok (items, off') ->
+    offset <= S off' /\ off' <= Nat.max offset (List.length lines).
+Proof.
+  intros lines offset items off' H. unfold n_read_block_items in H.
+  destruct (List.length lines <=? offset) eqn:L.
+  - inversion H; subst. lia.
+  - apply Nat.leb_gt in L.
+    destruct (skip_blank (skipn offset lines) offset) as [[[o l] r]|] eqn:SB; [|discriminate].
+    apply skip_blank_some in SB. destruct SB as (S1 & S2 & _ & _ & S5 & _).
+    rewrite skipn_length in S2.
+    destruct (n_items_loop r (S o) (npnames l) []) as [it n] eqn:G.
+    inversion H; subst. apply n_items_loop_off in G.
+    rewrite skipn_length, skipn_length in G. lia.
+Qed.
+
+Lemma n_read_block_off :
+  forall lines offset off',
+    n_read_block lines offset = Ok off' ->
+    offset <= S off' /\ off' <= Nat.max offset (List.length lines).
+Proof.
+  intros lines offset off' H. unfold n_read_block in H.
+  destruct (List.length lines <=? offset) eqn:L.
+  - inversion H; subst. lia.
+  - apply Nat.leb_gt in L.
+    destruct (skip_blank (skipn offset lines) offset) as [[[o l] r]|] eqn:SB; [|discriminate].
+    apply skip_blank_some in SB. destruct SB as (S1 & S2 & _ & _ & S5 & _).
+    rewrite skipn_length in S2.
+    pose proof (n_block_loop_off (l :: r) o) as G.
+    assert (LR : List.length r = List.length lines - offset - S (o - offset)).
+    { rewrite S5, skipn_length, skipn_length. reflexivity. }
+    change (List.length (l :: r)) with (S (List.length r)) in G.
+    assert (E : off' = Nat.pred (n_block_loop (l :: r) o)) by congruence.
+    rewrite E. lia.
+Qed.
+
+Lemma n_reader_off :
+  forall lines k offset n off',
+    n_reader lines k offset = Ok (n, off') ->
+    offset <= S off' /\ off' <= Nat.max offset (List.length lines).
+Proof.
+  intros lines k offset n off' H. unfold n_reader in H.
+  destruct k;
+    try (destruct (n_read_block_items lines offset) as [[it off]|e] eqn:R; [|discriminate];
+         inversion H; subst; eapply n_read_block_items_off; eauto).
+  destruct (n_read_block lines offset) as [off|e] eqn:R; [|discriminate].
+  inversion H; subst. eapply n_read_block_off; eauto.
+Qed.
+
+Lemma n_reader_err :
+  forall lines k offset e, n_reader lines k offset = Err e ->
+    e = IndexError /\ List.length lines > offset /\ skip_blank (skipn offset lines) offset = None.
+Proof.
+  intros lines k offset e H.
+  assert (A : n_read_block_items lines offset = Err e \/ n_read_block lines offset = Err e).
+  { unfold n_reader in H.
+    destruct k;
+      try (destruct (n_read_block_items lines offset) as [[it off]|e'] eqn:R; [discriminate|];
+           inversion H; subst; left; reflexivity).
+    destruct (n_read_block lines offset) as [off|e'] eqn:R; [discriminate|].
+    inversion H; subst; right; reflexivity. }
+  destruct A as [A|A]; [unfold n_read_block_items in A|unfold n_read_block in A];
+    destruct (List.length lines <=? offset) eqn:L; try discriminate;
+    apply Nat.leb_gt in L;
+    destruct (skip_blank (skipn offset lines) offset) as [[[o l] r]|] eqn:SB.
+  - destruct (n_items_loop r (S o) (npnames l) []); discriminate.
+  - inversion A; auto.
+  - discriminate.
+  - inversion A; auto.
+Qed.
+
+Lemma n_step_next :
+  forall lines st st', n_step lines st = Next st' ->
+    n_off st < n_off st' /\ n_off st < List.length lines.
+Proof.
+  intros lines st st' H. unfold n_step in H. cbv zeta in H.
+  destruct (nth_error lines (n_off st)) as [l|] eqn:N; [|discriminate].
+  assert (L : n_off st < List.length lines) by (apply nth_error_Some; congruence).
+  split; [|exact L].
+  repeat break_match_in H; try discriminate; inversion H; subst; simpl; try lia;
+    repeat match goal with
+           | R : n_reader _ _ _ = Ok _ |- _ => apply n_reader_off in R
+           end; lia.
+Qed.
+
+(* under the cleandoc post-condition a non-blank line follows every offset >= 1 inside the docstring *)
+Lemma skip_blank_app_nonblank :
+  forall pre l o, blank l = false -> skip_blank (pre ++ [l]) o <> None.
+Proof.
+  induction pre as [|x pre IH]; intros l o B; simpl.
+  - rewrite B. discriminate.
+  - destruct (blank x); [apply IH; exact B|discriminate].
+Qed.
+
+Lemma cleandoc_post_skip :
+  forall lines k, cleandoc_post lines = true -> 1 <= k -> k < List.length lines ->
+    skip_blank (skipn k lines) k <> None.
+Proof.
+  intros lines k P K1 K2. unfold cleandoc_post in P.
+  destruct (rev lines) as [|l t] eqn:R; [discriminate|].
+  assert (E : lines = rev t ++ [l]).
+  { rewrite <- (rev_involutive lines), R. reflexivity. }
+  assert (B : blank l = false).
+  { destruct t as [|y t].
+    - subst lines. simpl in K2. lia.
+    - apply negb_true_iff in P. exact P. }
+  subst lines. rewrite app_length in K2. simpl in K2.
+  rewrite skipn_app. replace (k - List.length (rev t)) with 0 by lia. simpl.
+  apply skip_blank_app_nonblank. exact B.
+Qed.
+
+Lemma n_step_no_fail :
+  forall lines st e, cleandoc_post lines = true -> n_step lines st <> Fail e.
+Proof.
+  intros lines st e P H. unfold n_step in H. cbv zeta in H.
+  destruct (nth_error lines (n_off st)) as [l|] eqn:N; [|discriminate].
+  assert (L : n_off st < List.length lines) by (apply nth_error_Some; congruence).
+  destruct (n_code st); [discriminate|].
+  destruct (fence l); [discriminate|].
+  destruct (blank l); [discriminate|].
+  destruct (S (n_off st) =? List.length lines) eqn:EQ; [discriminate|].
+  apply Nat.eqb_neq in EQ.
+  destruct (nth_error lines (S (n_off st))) as [d|] eqn:N1.
+  - destruct (dash d); [|discriminate].
+    destruct (nkind l) as [k|]; [|discriminate].
+    destruct (n_reader lines k (S (S (n_off st)))) as [[n off']|e'] eqn:R; [discriminate|].
+    apply n_reader_err in R. destruct R as (_ & R1 & R2).
+    exact (cleandoc_post_skip lines (S (S (n_off st))) P ltac:(lia) R1 R2).
+  - apply nth_error_None in N1. lia.
+Qed.
+
+Lemma n_step_no_fuel_fail : forall lines st, n_step lines st <> Fail OutOfFuel.
+Proof.
+  intros lines st H. unfold n_step in H. cbv zeta in H.
+  repeat break_match_in H; try discriminate.
+  inversion H; subst.
+  match goal with R : n_reader _ _ _ = Err _ |- _ => apply n_reader_err in R; destruct R as [R _]; discriminate end.
+Qed.
+
+Lemma numpy_terminates : forall lines o p, n_parse lines o p <> Err OutOfFuel.
+Proof.
+  intros lines o p H. unfold n_parse in H.
+  destruct (iter (n_step lines) (S (List.length lines)) (mkNst (g_start o p) false [] None [])) as [st|e] eqn:I; [discriminate|].
+  inversion H; subst.
+  revert I. apply (iter_fuel_sufficient nst (n_step lines) (fun st => List.length lines - n_off st)).
+  - intros s s' E. apply n_step_next in E. lia.
+  - intros s. apply n_step_no_fuel_fail.
+  - simpl. lia.
+Qed.
+
+Lemma numpy_total :
+  forall lines o p, cleandoc_post lines = true -> exists secs, n_parse lines o p = Ok secs.
+Proof.
+  intros lines o p P. destruct (n_parse lines o p) as [secs|e] eqn:G; [eauto|].
+  exfalso. unfold n_parse in G.
+  destruct (iter (n_step lines) (S (List.length lines)) (mkNst (g_start o p) false [] None [])) as [st|e'] eqn:I; [discriminate|].
+  assert (e' = OutOfFuel).
+  { apply (iter_no_fail nst (n_step lines) (fun _ => True)) with (fuel := S (List.length lines)) (s := mkNst (g_start o p) false [] None []); auto.
+    intros s e0 _. apply n_step_no_fail. exact P. }
+  subst. apply (numpy_terminates lines o p). unfold n_parse. rewrite I. reflexivity.
+Qed.
+
+(* the hypothesis is needed: "Parameters / --- / <blank>" can only arise by assigning Docstring.value directly *)
+Definition lf_plain (b : bool) : lf := mkLf b b 0 0 false false ANone false None 0 false None 0 0 0.
+Definition lf_dash : lf := mkLf false false 0 0 false false ANone true None 0 false None 0 0 0.
+Definition lf_nhdr (k : skind) : lf := mkLf false false 0 0 false false ANone false (Some k) 1 false None 0 0 0.
+Definition gopts_default : gopts := mkGopts false true true true false true true true.
+Definition no_parent : parent := mkParent false false.
+
+Lemma numpy_index_error_without_cleandoc :
+  exists lines, cleandoc_post lines = false /\ n_parse lines gopts_default no_parent = Err IndexError.
+Proof. exists [lf_nhdr KParams; lf_dash; lf_plain true]. split; reflexivity. Qed.
+
+(* ================= Sphinx main loop ================= *)
+Lemma s_cont_off :
+  forall rest o acc j c, s_cont rest o acc = (j, c) -> o <= j /\ j <= o + List.length rest.
+Proof.
+  induction rest as [|l rest IH]; intros o acc j c H; cbn [s_cont] in H.
+  - inversion H; subst. simpl. lia.
+  - destruct (colon0 l); [inversion H; subst; simpl; lia|].
+    apply IH in H. simpl. lia.
+Qed.
+
+Lemma s_step_next :
+  forall lines st st', s_step lines st = Next st' ->
+    s_off st < s_off st' /\ s_off st < List.length lines /\ s_off st' <= List.length lines.
+Proof.
+  intros lines st st' H. unfold s_step in H. cbv zeta in H.
+  destruct (nth_error lines (s_off st)) as [l|] eqn:N; [|discriminate].
+  assert (L : s_off st < List.length lines) by (apply nth_error_Some; congruence).
+  destruct (sfield l) as [f|].
+  - destruct (s_cont (skipn (S (s_off st)) lines) (S (s_off st)) []) as [j conts] eqn:C.
+    apply s_cont_off in C. rewrite skipn_length in C.
+    destruct f; inversion H; subst; simpl; lia.
+  - inversion H; subst; simpl; lia.
+Qed.
+
+Lemma s_step_no_fail : forall lines st e, s_step lines st <> Fail e.
+Proof.
+  intros lines st e H. unfold s_step in H. cbv zeta in H.
+  destruct (nth_error lines (s_off st)) as [l|]; [|discriminate].
+  destruct (sfield l) as [f|]; [|discriminate].
+  destruct (s_cont (skipn (S (s_off st)) lines) (S (s_off st)) []) as [j conts].
+  destruct f; discriminate.
+Qed.
+
+Lemma sphinx_terminates : forall lines, s_parse lines <> Err OutOfFuel.
+Proof.
+  intros lines H. unfold s_parse in H.
+  destruct (iter (s_step lines) (S (List.length lines)) (mkSst 0 [] 0 0 0 false)) as [st|e] eqn:I; [discriminate|].
+  inversion H; subst.
+  revert I. apply (iter_fuel_sufficient sst (s_step lines) (fun st => List.length lines - s_off st)).
+  - intros s s' E. apply s_step_next in E. lia.
+  - intros s. apply s_step_no_fail.
+  - simpl. lia.
+Qed.
+
+Lemma sphinx_total : forall lines, exists secs, s_parse lines = Ok secs.
+Proof.
+  intros lines. destruct (s_parse lines) as [secs|e] eqn:G; [eauto|].
+  exfalso. unfold s_parse in G.
+  destruct (iter (s_step lines) (S (List.length lines)) (mkSst 0 [] 0 0 0 false)) as [st|e'] eqn:I; [discriminate|].
+  assert (e' = OutOfFuel).
+  { apply (iter_no_fail sst (s_step lines) (fun _ => True)) with (fuel := S (List.length lines)) (s := mkSst 0 [] 0 0 0 false); auto.
+    intros s e0 _. apply s_step_no_fail. }
+  subst. apply (sphinx_terminates lines). unfold s_parse. rewrite I. reflexivity.
+Qed.
+
+(* ================= plain text: Google ================= *)
+Lemma text_of_cons : forall e cur, text_of (e :: cur) = text_of cur ++ [t_out e].
+Proof. intros. unfold text_of. simpl. rewrite map_app. reflexivity. Qed.
+
+Lemma text_of_nil_inv : forall cur, text_of cur = [] -> cur = [].
+Proof.
+  intros cur H. unfold text_of in H. apply map_eq_nil in H.
+  destruct cur as [|e c]; [reflexivity|]. simpl in H. destruct (rev c); discriminate.
+Qed.
+
+Lemma idx_text_S : forall a k, idx_text a (S k) = idx_text a k ++ [(a + k, false)].
+Proof. intros. unfold idx_text. rewrite seq_S, map_app. reflexivity. Qed.
+
+Lemma firstn_S_nth :
+  forall {A} (xs : list A) k x, nth_error xs k = Some x -> firstn (S k) xs = firstn k xs ++ [x].
+Proof.
+  induction xs as [|y xs IH]; intros k x H; [destruct k; discriminate|].
+  destruct k as [|k]; simpl in H.
+  - inversion H; subst. reflexivity.
+  - change (firstn (S (S k)) (y :: xs)) with (y :: firstn (S k) xs).
+    rewrite (IH k x H). reflexivity.
+Qed.
+
+Lemma first_nonblank_colon_lines :
+  forall es, first_nonblank_colon es = fnc_lines (map t_line es).
+Proof. induction es as [|e es IH]; simpl; [reflexivity|]. rewrite IH. reflexivity. Qed.
+
+Definition g_plain_inv (lines : list lf) (start : nat) (st : gst) : Prop :=
+  g_secs st = [] /\ start <= g_off st /\ g_off st <= Nat.max start (List.length lines) /\
+  text_of (g_cur st) = idx_text start (g_off st - start) /\
+  map t_line (rev (g_cur st)) = firstn (g_off st - start) (skipn start lines).
+
+Lemma g_plain_inv_cons :
+  forall lines start st l c,
+    g_plain_inv lines start st -> nth_error lines (g_off st) = Some l ->
+    g_plain_inv lines start (mkGst (S (g_off st)) c ((g_off st, false, l) :: g_cur st) (g_secs st)).
+Proof.
+  intros lines start st l c (I1 & I2 & I3 & I4 & I5) N.
+  assert (L : g_off st < List.length lines) by (apply nth_error_Some; congruence).
+  unfold g_plain_inv. cbn [g_off g_cur g_secs rev].
+  replace (S (g_off st) - start) with (S (g_off st - start)) by lia.
+  split; [exact I1|]. split; [lia|]. split; [lia|]. split.
+  - rewrite text_of_cons, I4, idx_text_S. unfold t_out, t_idx, t_blanked. simpl.
+    replace (start + (g_off st - start)) with (g_off st) by lia. reflexivity.
+  - rewrite map_app, I5. simpl. symmetry. apply firstn_S_nth.
+    rewrite nth_error_skipn. replace (start + (g_off st - start)) with (g_off st) by lia. exact N.
+Qed.
+
+Lemma g_plain_step :
+  forall lines o start st st',
+    (forall l, In l lines -> gadm l = ANone) ->
+    g_plain_inv lines start st -> g_step lines o st = Next st' -> g_plain_inv lines start st'.
+Proof.
+  intros lines o start st st' Hp I H. unfold g_step in H. cbv zeta in H.
+  destruct (nth_error lines (g_off st)) as [l|] eqn:N; [|discriminate].
+  rewrite (Hp l (nth_error_In _ _ N)) in H.
+  destruct (g_code st); [|destruct (fence l)]; inversion H; subst; apply g_plain_inv_cons; assumption.
+Qed.
+
+Lemma g_step_done :
+  forall lines o st r, g_step lines o st = Done r -> r = st /\ nth_error lines (g_off st) = None.
+Proof.
+  intros lines o st r H. unfold g_step in H. cbv zeta in H.
+  destruct (nth_error lines (g_off st)) as [l|] eqn:N.
+  - exfalso. repeat break_match_in H; discriminate.
+  - inversion H. auto.
+Qed.
+
+Lemma google_plain_text :
+  forall lines o p,
+    (forall l, In l lines -> gadm l = ANone) ->
+    g_parse lines o p =
+    Ok (if List.length lines <=? g_start o p then []
+        else if o_ret_prop o && p_property p && fnc_lines (skipn (g_start o p) lines)
+             then [SText (idx_text (g_start o p) (List.length lines - g_start o p)) true true; SSec KReturns 0 1]
+             else [SText (idx_text (g_start o p) (List.length lines - g_start o p))
+                         (fnc_lines (skipn (g_start o p) lines)) false]).
+Proof.
+  intros lines o p Hp. set (start := g_start o p).
+  destruct (google_total lines o p) as [secs G]. rewrite G. f_equal.
+  unfold g_parse in G. fold start in G.
+  destruct (iter (g_step lines o) (S (List.length lines)) (mkGst start false [] [])) as [st|e] eqn:I; [|discriminate].
+  inversion G; subst secs. clear G.
+  apply (iter_invariant gst (g_step lines o) (g_plain_inv lines start)) in I.
+  - destruct I as (s0 & (I1 & I2 & I3 & I4 & I5) & D). apply g_step_done in D. destruct D as [-> D].
+    apply nth_error_None in D. unfold g_finish. rewrite I1.
+    destruct (List.length lines <=? start) eqn:L.
+    + apply Nat.leb_le in L. assert (E : g_off s0 = start) by lia.
+      rewrite E, Nat.sub_diag in I4. apply text_of_nil_inv in I4. rewrite I4. simpl.
+      destruct (o_ret_prop o && p_property p); reflexivity.
+    + apply Nat.leb_gt in L. assert (E : g_off s0 = List.length lines) by lia.
+      rewrite E in I4, I5.
+      rewrite firstn_all2 in I5 by (rewrite skipn_length; lia).
+      destruct (g_cur s0) as [|e c] eqn:C.
+      * exfalso. unfold text_of in I4. simpl in I4.
+        replace (List.length lines - start) with (S (List.length lines - start - 1)) in I4 by lia.
+        rewrite idx_text_S in I4. destruct (idx_text start (List.length lines - start - 1)); discriminate.
+      * unfold mk_text. rewrite first_nonblank_colon_lines, I5, I4. simpl rev.
+        destruct (o_ret_prop o && p_property p); simpl; [|reflexivity].
+        destruct (fnc_lines (skipn start lines)); reflexivity.
+  - intros s s' Hs E. exact (g_plain_step lines o start s s' Hp Hs E).
+  - unfold g_plain_inv. simpl. rewrite Nat.sub_diag. simpl. repeat split; try lia; reflexivity.
+Qed.
+
+(* ================= plain text: Sphinx ================= *)
+Fixpoint index_from (a : nat) (ls : list lf) : list tentry :=
+  match ls with
+  | [] => []
+  | l :: r => (a, false, l) :: index_from (S a) r
+  end.
+
+Lemma index_from_app :
+  forall xs a x, index_from a (xs ++ [x]) = index_from a xs ++ [(a + List.length xs, false, x)].
+Proof.
+  induction xs as [|y xs IH]; intros a x; simpl.
+  - rewrite Nat.add_0_r. reflexivity.
+  - rewrite IH. replace (S a + List.length xs) with (a + S (List.length xs)) by lia. reflexivity.
+Qed.
+
+Lemma index_from_out : forall ls a, map t_out (index_from a ls) = idx_text a (List.length ls).
+Proof.
+  induction ls as [|l ls IH]; intros a; [reflexivity|].
+  simpl. rewrite IH. reflexivity.
+Qed.
+
+Lemma drop_blank_index_from :
+  forall ls a, drop_blank (index_from a ls) =
+               index_from (a + leading_blank ls) (skipn (leading_blank ls) ls).
+Proof.
+  induction ls as [|l ls IH]; intros a; simpl.
+  - reflexivity.
+  - unfold t_line. simpl. destruct (blank l) eqn:B.
+    + rewrite IH. cbn [skipn]. f_equal. lia.
+    + simpl. rewrite Nat.add_0_r. reflexivity.
+Qed.
+
+Lemma cleandoc_post_cases :
+  forall lines, cleandoc_post lines = true ->
+    (exists l, lines = [l] /\ blank l = true) \/ (exists pre l, lines = pre ++ [l] /\ blank l = false).
+Proof.
+  intros lines P. unfold cleandoc_post in P.
+  destruct (rev lines) as [|l t] eqn:R; [discriminate|].
+  assert (E : lines = rev t ++ [l]) by (rewrite <- (rev_involutive lines), R; reflexivity).
+  destruct (blank l) eqn:B.
+  - destruct t as [|y t]; [|simpl in P; discriminate].
+    left. exists l. simpl in E. auto.
+  - right. exists (rev t), l. auto.
+Qed.
+
+Definition s_plain_inv (lines : list lf) (st : sst) : Prop :=
+  s_off st <= List.length lines /\ rev (s_desc st) = index_from 0 (firstn (s_off st) lines) /\
+  s_params st = 0 /\ s_attrs st = 0 /\ s_excs st = 0 /\ s_ret st = false.
+
+Lemma s_plain_step :
+  forall lines st st',
+    (forall l, In l lines -> sfield l = None) ->
+    s_plain_inv lines st -> s_step lines st = Next st' -> s_plain_inv lines st'.
+Proof.
+  intros lines st st' Hp (I1 & I2 & I3 & I4 & I5 & I6) H. unfold s_step in H. cbv zeta in H.
+  destruct (nth_error lines (s_off st)) as [l|] eqn:N; [|discriminate].
+  assert (L : s_off st < List.length lines) by (apply nth_error_Some; congruence).
+  rewrite (Hp l (nth_error_In _ _ N)) in H. inversion H; subst. unfold s_plain_inv. cbn [s_off s_desc s_params s_attrs s_excs s_ret rev].
+  split; [lia|]. split; [|auto].
+  rewrite I2, (firstn_S_nth _ _ _ N), index_from_app, firstn_length, Nat.min_l by lia. reflexivity.
+Qed.
+
+Lemma s_step_done :
+  forall lines st r, s_step lines st = Done r -> r = st /\ nth_error lines (s_off st) = None.
+Proof.
+  intros lines st r H. unfold s_step in H. cbv zeta in H.
+  destruct (nth_error lines (s_off st)) as [l|] eqn:N.
+  - exfalso. repeat break_match_in H; discriminate.
+  - inversion H. auto.
+Qed.
+
+Lemma sphinx_plain_text :
+  forall lines,
+    (forall l, In l lines -> sfield l = None) -> cleandoc_post lines = true ->
+    s_parse lines =
+    Ok [SText (idx_text (leading_blank lines) (List.length lines - leading_blank lines)) false false].
+Proof.
+  intros lines Hp P.
+  destruct (sphinx_total lines) as [secs G]. rewrite G. f_equal.
+  unfold s_parse in G.
+  destruct (iter (s_step lines) (S (List.length lines)) (mkSst 0 [] 0 0 0 false)) as [st|e] eqn:I; [|discriminate].
+  inversion G; subst secs. clear G.
+  apply (iter_invariant sst (s_step lines) (s_plain_inv lines)) in I.
+  - destruct I as (s0 & (I1 & I2 & I3 & I4 & I5 & I6) & D). apply s_step_done in D. destruct D as [-> D].
+    apply nth_error_None in D. assert (E : s_off s0 = List.length lines) by lia.
+    rewrite E, firstn_all in I2.
+    unfold s_finish. rewrite I3, I4, I5, I6. simpl. f_equal. f_equal.
+    assert (DS : s_desc s0 = rev (index_from 0 lines)) by (rewrite <- I2, rev_involutive; reflexivity).
+    unfold strip_blank. rewrite DS.
+    destruct (cleandoc_post_cases lines P) as [(l & -> & B)|(pre & l & -> & B)].
+    + simpl. unfold t_line. simpl. rewrite B. reflexivity.
+    + rewrite index_from_app, rev_app_distr. simpl. rewrite B. cbn [rev]. rewrite rev_involutive.
+      change (List.length pre) with (0 + List.length pre) at 1. rewrite <- index_from_app.
+      rewrite drop_blank_index_from, index_from_out, skipn_length. reflexivity.
+  - intros s s' Hs E. exact (s_plain_step lines s s' Hp Hs E).
+  - unfold s_plain_inv. simpl. repeat split; lia.
+Qed.
+
+(* ================= plain text: Numpy ================= *)
+Definition entry_ok (lines : list lf) (e : tentry) : Prop :=
+  nth_error lines (t_idx e) = Some (t_line e) /\ (t_blanked e = true -> blank (t_line e) = true).
+
+Definition text_ok (lines : list lf) (start n : nat) (ls : list (nat * bool)) : Prop :=
+  map fst ls = seq start n /\
+  forall i b, In (i, b) ls -> b = true -> exists l, nth_error lines i = Some l /\ blank l = true.
+
+Definition n_running (lines : list lf) (start : nat) (st : nst) : Prop :=
+  n_secs st = [] /\ n_adm st = None /\ start <= n_off st /\ n_off st <= Nat.max start (List.length lines) /\
+  map t_idx (rev (n_cur st)) = seq start (n_off st - start) /\ Forall (entry_ok lines) (n_cur st).
+
+Definition n_finished (lines : list lf) (start : nat) (st : nst) : Prop :=
+  n_off st = List.length lines /\ start < List.length lines /\ n_cur st = [] /\ n_adm st = None /\
+  exists ls fc, n_secs st = [SText ls fc false] /\ text_ok lines start (List.length lines - start) ls.
+
+Lemma text_of_ok :
+  forall lines start n cur,
+    map t_idx (rev cur) = seq start n -> Forall (entry_ok lines) cur -> text_ok lines start n (text_of cur).
+Proof.
+  intros lines start n cur M F. unfold text_ok, text_of. split.
+  - rewrite map_map. rewrite <- M. apply map_ext. intros e. reflexivity.
+  - intros i b I Hb. apply in_map_iff in I. destruct I as (e & E & I).
+    apply in_rev in I. rewrite Forall_forall in F. destruct (F e I) as [F1 F2].
+    unfold t_out in E. inversion E; subst. exists (t_line e). auto.
+Qed.
+
+Lemma n_running_cons :
+  forall lines start st l b,
+    n_running lines start st -> nth_error lines (n_off st) = Some l -> (b = true -> blank l = true) ->
+    n_off st < List.length lines /\
+    map t_idx (rev ((n_off st, b, l) :: n_cur st)) = seq start (S (n_off st) - start) /\
+    Forall (entry_ok lines) ((n_off st, b, l) :: n_cur st).
+Proof.
+  intros lines start st l b (R1 & R2 & R3 & R4 & R5 & R6) N Hb.
+  assert (L : n_off st < List.length lines) by (apply nth_error_Some; congruence).
+  split; [exact L|]. split.
+  - unfold tentry in *. cbn [rev]. rewrite map_app, R5. replace (S (n_off st) - start) with (S (n_off st - start)) by lia.
+    rewrite seq_S. simpl. unfold t_idx. simpl. f_equal. f_equal. lia.
+  - constructor; [|exact R6]. split; [exact N|exact Hb].
+Qed.
+
+Lemma n_plain_step :
+  forall lines start st st',
+    (forall l, In l lines -> dash l = false) -> lines_wf lines = true ->
+    n_running lines start st \/ n_finished lines start st ->
+    n_step lines st = Next st' ->
+    n_running lines start st' \/ n_finished lines start st'.
+Proof.
+  intros lines start st st' Hp W [R|F] H.
+  - unfold n_step in H. cbv zeta in H.
+    destruct (nth_error lines (n_off st)) as [l|] eqn:N; [|discriminate].
+    pose proof R as (R1 & R2 & R3 & R4 & R5 & R6).
+    assert (KEEP : forall c b, (b = true -> blank l = true) ->
+              n_running lines start (mkNst (S (n_off st)) c ((n_off st, b, l) :: n_cur st) (n_adm st) (n_secs st))).
+    { intros c b Hb. destruct (n_running_cons lines start st l b R N Hb) as (L & M & FA).
+      unfold n_running. cbn [n_off n_code n_cur n_adm n_secs]. repeat split; auto; lia. }
+    destruct (n_code st); [inversion H; subst; left; apply KEEP; discriminate|].
+    destruct (fence l); [inversion H; subst; left; apply KEEP; discriminate|].
+    destruct (blank l) eqn:B; [inversion H; subst; left; apply KEEP; auto|].
+    destruct (S (n_off st) =? List.length lines) eqn:EQ.
+    + apply Nat.eqb_eq in EQ. inversion H; subst. right.
+      destruct (n_running_cons lines start st l false R N ltac:(discriminate)) as (L & M & FA).
+      unfold n_finished. cbn [n_off n_code n_cur n_adm n_secs].
+      split; [exact EQ|]. split; [lia|]. split; [reflexivity|]. split; [reflexivity|].
+      rewrite R1, R2. unfold n_append.
+      assert (NN : null l = false).
+      { unfold lines_wf in W. rewrite forallb_forall in W. specialize (W l (nth_error_In _ _ N)).
+        unfold lf_wf in W. rewrite B in W. destruct (null l); [discriminate|reflexivity]. }
+      unfold any_nonnull. cbn [existsb]. unfold t_null at 1, t_blanked, t_line. simpl. rewrite NN. simpl.
+      eexists. eexists. split; [reflexivity|].
+      rewrite <- EQ. apply text_of_ok; assumption.
+    + destruct (nth_error lines (S (n_off st))) as [d|] eqn:N1; [|discriminate].
+      rewrite (Hp d (nth_error_In _ _ N1)) in H. inversion H; subst. left. apply KEEP. discriminate.
+  - exfalso. destruct F as (F1 & _). unfold n_step in H.
+    assert (N : nth_error lines (n_off st) = None) by (apply nth_error_None; lia).
+    rewrite N in H. discriminate.
+Qed.
+
+Lemma n_step_done :
+  forall lines st r, n_step lines st = Done r -> r = st /\ nth_error lines (n_off st) = None.
+Proof.
+  intros lines st r H. unfold n_step in H. cbv zeta in H.
+  destruct (nth_error lines (n_off st)) as [l|] eqn:N.
+  - exfalso. repeat break_match_in H; discriminate.
+  - inversion H. auto.
+Qed.
+
+Lemma map_rev_nil : forall {A B} (f : A -> B) l, map f (rev l) = [] -> l = [].
+Proof.
+  intros A B f l H. apply map_eq_nil in H. destruct l as [|x l]; [reflexivity|].
+  simpl in H. destruct (rev l); discriminate.
+Qed.
+
+Lemma numpy_plain_text_modulo_known :
+  forall lines o p,
+    (forall l, In l lines -> dash l = false) ->
+    cleandoc_post lines = true -> lines_wf lines = true -> KnownGap_F1 lines = false ->
+    exists ls fc,
+      n_parse lines o p = Ok (if List.length lines <=? g_start o p then [] else [SText ls fc false]) /\
+      (g_start o p < List.length lines ->
+       map fst ls = seq (g_start o p) (List.length lines - g_start o p) /\
+       forall i b, In (i, b) ls -> b = true -> exists l, nth_error lines i = Some l /\ blank l = true).
+Proof.
+  intros lines o p Hp P W K. set (start := g_start o p).
+  destruct (numpy_total lines o p P) as [secs G]. rewrite G.
+  unfold n_parse in G. fold start in G.
+  destruct (iter (n_step lines) (S (List.length lines)) (mkNst start false [] None [])) as [st|e] eqn:I; [|discriminate].
+  inversion G; subst secs. clear G.
+  apply (iter_invariant nst (n_step lines) (fun s => n_running lines start s \/ n_finished lines start s)) in I.
+  - destruct I as (s0 & Inv & D). apply n_step_done in D. destruct D as [-> D].
+    apply nth_error_None in D. unfold n_finish.
+    destruct Inv as [(R1 & R2 & R3 & R4 & R5 & R6)|(F1 & F2 & F3 & F4 & ls & fc & F5 & F6)].
+    + rewrite R1, R2. unfold n_append.
+      destruct (List.length lines <=? start) eqn:L.
+      * apply Nat.leb_le in L. assert (E : n_off s0 = start) by lia.
+        rewrite E, Nat.sub_diag in R5. apply map_rev_nil in R5. rewrite R5.
+        exists [], false. split; [reflexivity|]. intros. lia.
+      * apply Nat.leb_gt in L. assert (E : n_off s0 = List.length lines) by lia.
+        rewrite E in R5.
+        destruct (n_cur s0) as [|e c] eqn:C.
+        { exfalso. simpl in R5. replace (List.length lines - start) with (S (List.length lines - start - 1)) in R5 by lia.
+          simpl in R5. discriminate. }
+        (* the newest entry is the last line, which is not blank *)
+        assert (TI : t_idx e = List.length lines - 1).
+        { cbn [rev] in R5. rewrite map_app in R5.
+          replace (List.length lines - start) with (S (List.length lines - start - 1)) in R5 by lia.
+          rewrite seq_S in R5. apply app_inj_tail in R5. destruct R5 as [_ R5]. rewrite R5. lia. }
+        assert (NB : t_null e = false).
+        { inversion R6 as [|? ? [E1 E2] ?]; subst.
+          destruct (cleandoc_post_cases lines P) as [(l & -> & B)|(pre & l & -> & B)].
+          - unfold KnownGap_F1 in K. simpl in K. rewrite B in K. discriminate.
+          - rewrite TI in E1. rewrite app_length in E1. simpl in E1.
+            replace (List.length pre + 1 - 1) with (List.length pre) in E1 by lia.
+            rewrite nth_error_app2 in E1 by lia. rewrite Nat.sub_diag in E1. simpl in E1.
+            inversion E1 as [E3].
+            unfold t_null. destruct (t_blanked e) eqn:TB.
+            + specialize (E2 eq_refl). rewrite <- E3, B in E2. discriminate.
+            + simpl. unfold lines_wf in W. rewrite forallb_forall in W.
+              specialize (W l ltac:(apply in_or_app; right; left; reflexivity)).
+              unfold lf_wf in W. rewrite <- E3. rewrite B in W. destruct (null l); [discriminate|reflexivity]. }
+        unfold any_nonnull. cbn [existsb]. rewrite NB. simpl.
+        eexists. eexists. split; [reflexivity|]. intros _.
+        apply text_of_ok; [exact R5|exact R6].
+    + rewrite F3, F4, F5. simpl.
+      assert (L : (List.length lines <=? start) = false) by (apply Nat.leb_gt; lia).
+      rewrite L. exists ls, fc. split; [reflexivity|]. intros _. exact F6.
+  - intros s s' Hs E. exact (n_plain_step lines start s s' Hp W Hs E).
+  - left. unfold n_running. simpl. rewrite Nat.sub_diag. simpl. repeat split; try lia; auto.
+Qed.
+
+(* C12-F1: the full plain-text statement is false of the Numpy parser for the empty docstring *)
+Lemma numpy_plain_text_refuted_F1 :
+  exists lines o p,
+    (forall l, In l lines -> dash l = false) /\ cleandoc_post lines = true /\ lines_wf lines = true /\
+    KnownGap_F1 lines = true /\ g_start o p < List.length lines /\ n_parse lines o p = Ok [].
+Proof.
+  exists [lf_plain true], gopts_default, no_parent.
+  split; [intros l [<-|[]]; reflexivity|].
+  split; [reflexivity|]. split; [reflexivity|]. split; [reflexivity|]. split; [cbv; lia|reflexivity].
+Qed.
+
+(* ================= well-formed sections ================= *)
+Definition cur_ok (n : nat) (cur : list tentry) : bool := forallb (fun e => t_idx e <? n) cur.
+
+Lemma text_of_wf : forall n cur, cur_ok n cur = true -> forallb (fun ib => fst ib <? n) (text_of cur) = true.
+Proof.
+  intros n cur H. unfold cur_ok in H. rewrite forallb_forall in *. intros ib I.
+  unfold text_of in I. apply in_map_iff in I. destruct I as (e & <- & I). apply in_rev in I.
+  exact (H e I).
+Qed.
+
+Lemma mk_text_wf : forall n cur, cur_ok n cur = true -> wf_section n (mk_text cur) = true.
+Proof. intros. unfold mk_text. simpl. apply text_of_wf. assumption. Qed.
+
+Lemma flush_text_wf :
+  forall n cur secs, cur_ok n cur = true -> wf_sections n secs = true -> wf_sections n (flush_text cur secs) = true.
+Proof.
+  intros n cur secs C S. unfold flush_text. destruct cur as [|e c]; [exact S|].
+  destruct (any_nonnull (e :: c)); [|exact S].
+  unfold wf_sections. cbn [forallb]. rewrite mk_text_wf by exact C. exact S.
+Qed.
+
+Lemma wf_sections_rev : forall n secs, wf_sections n secs = true -> wf_sections n (rev secs) = true.
+Proof.
+  intros n secs H. unfold wf_sections in *. rewrite forallb_forall in *. intros s I. apply in_rev in I. auto.
+Qed.
+
+Lemma wf_sections_app :
+  forall n a b, wf_sections n a = true -> wf_sections n b = true -> wf_sections n (a ++ b) = true.
+Proof. intros n a b A B. unfold wf_sections in *. rewrite forallb_app, A, B. reflexivity. Qed.
+
+Lemma g_read_block_some :
+  forall lines offset f la ind off',
+    g_read_block lines offset = Ok (Some (f, la, ind), off') ->
+    offset <= f /\ f <= la /\ la < List.length lines /\ 1 <= ind.
+Proof.
+  intros lines offset f la ind off' H. unfold g_read_block in H.
+  destruct (List.length lines <=? offset) eqn:L; [discriminate|].
+  apply Nat.leb_gt in L.
+  destruct (skip_blank (skipn offset lines) offset) as [[[o l] r]|] eqn:SB; [|discriminate].
+  apply skip_blank_some in SB. destruct SB as (S1 & S2 & _ & _ & S5 & _).
+  rewrite skipn_length in S2.
+  destruct (ws l =? 0) eqn:W; [discriminate|]. apply Nat.eqb_neq in W.
+  pose proof (g_block_loop_off r (S o) (ws l)) as G.
+  assert (LR : List.length r = List.length lines - offset - S (o - offset)).
+  { rewrite S5, skipn_length, skipn_length. reflexivity. }
+  assert (E : f = o /\ la = Nat.pred (g_block_loop r (S o) (ws l)) /\ ind = ws l).
+  { inversion H. auto. }
+  destruct E as (-> & -> & ->). lia.
+Qed.
+
+(* shapes of one Google iteration *)
+Lemma g_step_shape :
+  forall lines o st st', g_step lines o st = Next st' ->
+    exists l, nth_error lines (g_off st) = Some l /\
+    ((g_cur st' = (g_off st, false, l) :: g_cur st /\ g_secs st' = g_secs st) \/
+     (exists k n, g_cur st' = [] /\
+        g_secs st' = (if 0 <? n then SSec k (g_off st) n :: flush_text (g_cur st) (g_secs st)
+                      else flush_text (g_cur st) (g_secs st))) \/
+     (exists f la ind off', g_read_block lines (S (g_off st)) = Ok (Some (f, la, ind), off') /\
+        g_cur st' = [] /\ g_secs st' = SAdm (g_off st) f la ind :: flush_text (g_cur st) (g_secs st)) \/
+     (exists off' x, nth_error lines off' = Some x /\
+        g_cur st' = (off', false, x) :: g_cur st /\ g_secs st' = g_secs st) \/
+     (g_cur st' = g_cur st /\ g_secs st' = g_secs st)).
+Proof.
+  intros lines o st st' H. unfold g_step in H. cbv zeta in H.
+  destruct (nth_error lines (g_off st)) as [l|] eqn:N; [|discriminate].
+  exists l. split; [reflexivity|].
+  repeat break_match_in H; try discriminate; inversion H; subst; cbn [g_cur g_secs];
+    first [ left; split; reflexivity
+          | match goal with E : (0 <? ?m) = _, k0 : skind |- _ =>
+              right; left; exists k0, m; split; [reflexivity|rewrite E; reflexivity] end
+          | right; right; left; do 4 eexists; split; [first [eassumption|reflexivity]|split; reflexivity]
+          | right; right; right; left; do 2 eexists; split; [first [eassumption|reflexivity]|split; reflexivity]
+          | right; right; right; right; split; reflexivity ].
+Qed.
+
+Definition g_wf_inv (n : nat) (st : gst) : Prop :=
+  cur_ok n (g_cur st) = true /\ wf_sections n (g_secs st) = true.
+
+Lemma g_wf_step :
+  forall lines o st st', g_wf_inv (List.length lines) st -> g_step lines o st = Next st' ->
+    g_wf_inv (List.length lines) st'.
+Proof.
+  intros lines o st st' (C & S) H. apply g_step_shape in H.
+  destruct H as (l & N & H).
+  assert (L : g_off st < List.length lines) by (apply nth_error_Some; congruence).
+  assert (Lb : (g_off st <? List.length lines) = true) by (apply Nat.ltb_lt; exact L).
+  unfold g_wf_inv.
+  destruct H as [(-> & ->)|[(k & n & -> & ->)|[(f & la & ind & off' & R & -> & ->)|[(off' & x & X & -> & ->)|(-> & ->)]]]].
+  - split; [|exact S]. unfold cur_ok. cbn [forallb]. unfold t_idx at 1. simpl. rewrite Lb. exact C.
+  - split; [reflexivity|].
+    pose proof (flush_text_wf _ _ _ C S) as F.
+    destruct (0 <? n) eqn:Z; [|exact F].
+    unfold wf_sections. cbn [forallb wf_section]. apply Nat.ltb_lt in Z.
+    replace (1 <=? n) with true by (symmetry; apply Nat.leb_le; lia). rewrite Lb. exact F.
+  - split; [reflexivity|].
+    pose proof (flush_text_wf _ _ _ C S) as F.
+    apply g_read_block_some in R. destruct R as (R1 & R2 & R3 & R4).
+    unfold wf_sections. cbn [forallb wf_section].
+    replace (g_off st <? f) with true by (symmetry; apply Nat.ltb_lt; lia).
+    replace (f <=? la) with true by (symmetry; apply Nat.leb_le; lia).
+    replace (la <? List.length lines) with true by (symmetry; apply Nat.ltb_lt; lia).
+    replace (1 <=? ind) with true by (symmetry; apply Nat.leb_le; lia). exact F.
+  - split; [|exact S]. unfold cur_ok. cbn [forallb]. unfold t_idx at 1. simpl.
+    replace (off' <? List.length lines) with true
+      by (symmetry; apply Nat.ltb_lt; apply nth_error_Some; congruence). exact C.
+  - split; assumption.
+Qed.
+
+Lemma google_sections_well_formed :
+  forall lines o p secs, g_parse lines o p = Ok secs -> wf_sections (List.length lines) secs = true.
+Proof.
+  intros lines o p secs G.
+  destruct lines as [|l0 lines'].
+  { (* no line at all: nothing is produced *)
+    unfold g_parse, g_start in G.
+    destruct (o_ignore_init o && p_init_method p); simpl in G; unfold g_finish in G; simpl in G;
+      destruct (o_ret_prop o && p_property p); inversion G; reflexivity. }
+  remember (l0 :: lines') as lines eqn:EL.
+  assert (NZ : 0 < List.length lines) by (subst lines; simpl; lia).
+  clear EL l0 lines'.
+  unfold g_parse in G.
+  destruct (iter (g_step lines o) (S (List.length lines)) (mkGst (g_start o p) false [] [])) as [st|e] eqn:I; [|discriminate].
+  inversion G; subst secs. clear G.
+  apply (iter_invariant gst (g_step lines o) (g_wf_inv (List.length lines))) in I.
+  - destruct I as (s0 & (C & S) & D). apply g_step_done in D. destruct D as [-> D].
+    assert (W : wf_sections (List.length lines)
+                  (rev match g_cur s0 with [] => g_secs s0 | e :: c => mk_text (e :: c) :: g_secs s0 end) = true).
+    { apply wf_sections_rev. destruct (g_cur s0) as [|e c] eqn:E; [exact S|].
+      unfold wf_sections. cbn [forallb]. rewrite mk_text_wf by exact C. exact S. }
+    unfold g_finish. destruct (o_ret_prop o && p_property p); [|exact W].
+    destruct (rev match g_cur s0 with [] => g_secs s0 | e :: c => mk_text (e :: c) :: g_secs s0 end) as [|s rest] eqn:R; [reflexivity|].
+    destruct s as [ls fc sp| | |]; try exact W.
+    destruct fc; [|exact W]. destruct sp; [exact W|].
+    unfold wf_sections in *. cbn [forallb] in W |- *. rewrite forallb_app. cbn [forallb wf_section].
+    apply andb_true_iff in W. destruct W as [W1 W2]. simpl in W1. rewrite W1, W2.
+    replace (0 <? List.length lines) with true by (symmetry; apply Nat.ltb_lt; exact NZ). reflexivity.
+  - intros s s' Hs E. exact (g_wf_step lines o s s' Hs E).
+  - split; reflexivity.
+Qed.
+
+(* ---- Numpy ---- *)
+Definition adm_ok (n : nat) (a : option nat) : Prop := match a with Some h => (h <? n) = true | None => True end.
+
+Lemma n_append_wf :
+  forall n secs cur a, cur_ok n cur = true -> wf_sections n secs = true -> adm_ok n a ->
+    wf_sections n (n_append secs cur a) = true.
+Proof.
+  intros n secs cur a C S A. unfold n_append. destruct a as [h|].
+  - unfold wf_sections. cbn [forallb wf_section]. simpl in A. rewrite A, (text_of_wf n cur C). exact S.
+  - destruct cur as [|e c]; [exact S|]. destruct (any_nonnull (e :: c)); [|exact S].
+    unfold wf_sections. cbn [forallb]. rewrite mk_text_wf by exact C. exact S.
+Qed.
+
+Lemma n_step_shape :
+  forall lines st st', n_step lines st = Next st' ->
+    exists l, nth_error lines (n_off st) = Some l /\
+    ((exists b, n_cur st' = (n_off st, b, l) :: n_cur st /\ n_secs st' = n_secs st /\ n_adm st' = n_adm st) \/
+     (n_cur st' = [] /\ n_adm st' = None /\
+        n_secs st' = n_append (n_secs st) ((n_off st, false, l) :: n_cur st) (n_adm st)) \/
+     (exists k n, n_cur st' = [] /\ n_adm st' = None /\
+        n_secs st' = (if 0 <? n then SSec k (n_off st) n :: n_append (n_secs st) (n_cur st) (n_adm st)
+                      else n_append (n_secs st) (n_cur st) (n_adm st))) \/
+     (n_cur st' = [] /\ n_adm st' = Some (n_off st) /\
+        n_secs st' = n_append (n_secs st) (n_cur st) (n_adm st))).
+Proof.
+  intros lines st st' H. unfold n_step in H. cbv zeta in H.
+  destruct (nth_error lines (n_off st)) as [l|] eqn:N; [|discriminate].
+  exists l. split; [reflexivity|].
+  repeat break_match_in H; try discriminate; inversion H; subst; cbn [n_cur n_secs n_adm];
+    first [ left; eexists; split; [reflexivity|split; reflexivity]
+          | right; left; split; [reflexivity|split; reflexivity]
+          | match goal with E : (0 <? ?m) = _, k0 : skind |- _ =>
+              right; right; left; exists k0, m; split; [reflexivity|split; [reflexivity|rewrite E; reflexivity]] end
+          | right; right; right; split; [reflexivity|split; reflexivity] ].
+Qed.
+
+Definition n_wf_inv (n : nat) (st : nst) : Prop :=
+  cur_ok n (n_cur st) = true /\ wf_sections n (n_secs st) = true /\ adm_ok n (n_adm st).
+
+Lemma n_wf_step :
+  forall lines st st', n_wf_inv (List.length lines) st -> n_step lines st = Next st' ->
+    n_wf_inv (List.length lines) st'.
+Proof.
+  intros lines st st' (C & S & A) H. apply n_step_shape in H.
+  destruct H as (l & N & H).
+  assert (L : n_off st < List.length lines) by (apply nth_error_Some; congruence).
+  assert (Lb : (n_off st <? List.length lines) = true) by (apply Nat.ltb_lt; exact L).
+  assert (C1 : forall b, cur_ok (List.length lines) ((n_off st, b, l) :: n_cur st) = true).
+  { intros b. unfold cur_ok. cbn [forallb]. unfold t_idx at 1. simpl. rewrite Lb. exact C. }
+  unfold n_wf_inv.
+  destruct H as [(b & -> & -> & ->)|[(-> & -> & ->)|[(k & n & -> & -> & ->)|(-> & -> & ->)]]].
+  - split; [apply C1|]. split; assumption.
+  - split; [reflexivity|]. split; [|simpl; trivial]. apply n_append_wf; auto.
+  - split; [reflexivity|]. split; [|simpl; trivial].
+    pose proof (n_append_wf _ _ _ _ C S A) as F.
+    destruct (0 <? n) eqn:Z; [|exact F].
+    unfold wf_sections. cbn [forallb wf_section]. apply Nat.ltb_lt in Z.
+    replace (1 <=? n) with true by (symmetry; apply Nat.leb_le; lia). rewrite Lb. exact F.
+  - split; [reflexivity|]. split; [|exact Lb]. apply n_append_wf; auto.
+Qed.
+
+Lemma numpy_sections_well_formed :
+  forall lines o p secs, n_parse lines o p = Ok secs -> wf_sections (List.length lines) secs = true.
+Proof.
+  intros lines o p secs G. unfold n_parse in G.
+  destruct (iter (n_step lines) (S (List.length lines)) (mkNst (g_start o p) false [] None [])) as [st|e] eqn:I; [|discriminate].
+  inversion G; subst secs. clear G.
+  apply (iter_invariant nst (n_step lines) (n_wf_inv (List.length lines))) in I.
+  - destruct I as (s0 & (C & S & A) & D). apply n_step_done in D. destruct D as [-> D].
+    unfold n_finish. apply wf_sections_rev. apply n_append_wf; assumption.
+  - intros s s' Hs E. exact (n_wf_step lines s s' Hs E).
+  - split; [reflexivity|]. split; [reflexivity|simpl; trivial].
+Qed.
+
+(* ---- Sphinx ---- *)
+Lemma drop_blank_incl : forall l e, In e (drop_blank l) -> In e l.
+Proof.
+  induction l as [|x l IH]; intros e H; simpl in H; [contradiction|].
+  destruct (blank (t_line x)); [right; apply IH; exact H|exact H].
+Qed.
+
+Lemma strip_blank_ok : forall n desc, cur_ok n desc = true -> cur_ok n (strip_blank desc) = true.
+Proof.
+  intros n desc C. unfold cur_ok, strip_blank in *. rewrite forallb_forall in *. intros e I.
+  apply drop_blank_incl in I. apply in_rev in I. apply drop_blank_incl in I. auto.
+Qed.
+
+Lemma s_wf_step :
+  forall lines st st', cur_ok (List.length lines) (s_desc st) = true -> s_step lines st = Next st' ->
+    cur_ok (List.length lines) (s_desc st') = true.
+Proof.
+  intros lines st st' C H. unfold s_step in H. cbv zeta in H.
+  destruct (nth_error lines (s_off st)) as [l|] eqn:N; [|discriminate].
+  assert (Lb : (s_off st <? List.length lines) = true)
+    by (apply Nat.ltb_lt; apply nth_error_Some; congruence).
+  destruct (sfield l) as [f|].
+  - destruct (s_cont (skipn (S (s_off st)) lines) (S (s_off st)) []) as [j conts].
+    destruct f; inversion H; subst; exact C.
+  - inversion H; subst. unfold cur_ok. cbn [s_desc forallb]. unfold t_idx at 1. simpl. rewrite Lb. exact C.
+Qed.
+
+Lemma sphinx_sections_well_formed :
+  forall lines secs, s_parse lines = Ok secs ->
+    wf_sections (List.length lines) secs = true /\ exists ls rest, secs = SText ls false false :: rest.
+Proof.
+  intros lines secs G.
+  destruct lines as [|l0 lines'].
+  { vm_compute in G. inversion G. split; [reflexivity|eexists; eexists; reflexivity]. }
+  remember (l0 :: lines') as lines eqn:EL.
+  assert (NZ : (0 <? List.length lines) = true) by (subst lines; reflexivity).
+  clear EL l0 lines'.
+  unfold s_parse in G.
+  destruct (iter (s_step lines) (S (List.length lines)) (mkSst 0 [] 0 0 0 false)) as [st|e] eqn:I; [|discriminate].
+  inversion G; subst secs. clear G. split; [|unfold s_finish; eauto].
+  apply (iter_invariant sst (s_step lines) (fun s => cur_ok (List.length lines) (s_desc s) = true)) in I.
+  - destruct I as (s0 & C & D). apply s_step_done in D. destruct D as [-> D].
+    unfold s_finish, wf_sections. cbn [forallb wf_section].
+    apply strip_blank_ok in C. unfold cur_ok in C.
+    assert (T : forallb (fun ib => fst ib <? List.length lines) (map t_out (strip_blank (s_desc s0))) = true).
+    { rewrite forallb_forall in *. intros ib I. apply in_map_iff in I. destruct I as (e & <- & I). exact (C e I). }
+    rewrite T. cbn [andb]. rewrite !forallb_app.
+    destruct (0 <? s_params s0) eqn:Z1; destruct (0 <? s_attrs s0) eqn:Z2; destruct (s_ret s0);
+      destruct (0 <? s_excs s0) eqn:Z3; cbn [forallb wf_section andb]; rewrite ?NZ;
+      repeat match goal with Z : (0 <? ?x) = true |- _ =>
+               replace (1 <=? x) with true by (symmetry; apply Nat.leb_le; apply Nat.ltb_lt in Z; lia); clear Z end;
+      reflexivity.
+  - intros s s' Hs E. exact (s_wf_step lines s s' Hs E).
+  - reflexivity.
+Qed.
+
+(* ================= non-vacuity: the models do produce sections, and the hypotheses are satisfiable ================= *)
+Definition lf_text : lf := mkLf false false 0 0 false false ANone false None 1 false None 0 0 0.
+Definition lf_ghdr (k : skind) : lf := mkLf false false 0 0 false true (ASec k) false None 1 false None 1 0 0.
+Definition lf_gadm : lf := mkLf false false 0 0 false true AAdm false None 1 false None 1 0 0.
+Definition lf_item (ind : nat) (c : bool) : lf := mkLf false false ind ind false c ANone false None 0 false None (if c then 1 else 0) 0 0.
+Definition lf_field (f : sfld) (nc sp2 : nat) : lf := mkLf false false 0 0 false true ANone false None 0 true (Some f) nc 0 sp2.
+
+(* "Summary." / "" / "Args:" / "    x: d" / "    nocolon" / "        continued" / "Note:" / "    body" *)
+Example google_example :
+  g_parse [lf_text; lf_plain true; lf_ghdr KParams; lf_item 4 true; lf_item 4 false; lf_item 8 false;
+           lf_plain true; lf_gadm; lf_item 4 false] gopts_default no_parent =
+  Ok [SText [(0, false); (1, false)] false false; SSec KParams 2 1; SAdm 7 8 8 4].
+Proof. vm_compute. reflexivity. Qed.
+
+(* "Returns:" at the end of the docstring with returns_multiple_items=False: the repaired empty-block case *)
+Example google_empty_single_block :
+  g_parse [lf_text; lf_plain true; lf_ghdr KReturns]
+          (mkGopts false true false true false true true true) no_parent =
+  Ok [SText [(0, false); (1, false); (2, false)] false false].
+Proof. vm_compute. reflexivity. Qed.
+
+(* "Parameters" / "---" / "x : int" / "    described" / "y" / "Notes" / "-----" / "text" *)
+Example numpy_example :
+  n_parse [lf_nhdr KParams; lf_dash; lf_text; lf_item 4 false; lf_text; lf_text; lf_dash; lf_text]
+          gopts_default no_parent =
+  Ok [SSec KParams 0 2; SNAdm 5 [(7, false)]].
+Proof. vm_compute. reflexivity. Qed.
+
+(* "Summary." / ":param x: d" / "    continued" / ":raises E: e" / ":returns: r" *)
+Example sphinx_example :
+  s_parse [lf_text; lf_field FParam 2 1; lf_item 4 false; lf_field FExc 2 1; lf_field FRet 2 0] =
+  Ok [SText [(0, false)] false false; SSec KParams 0 1; SSec KReturns 0 1; SSec KRaises 0 1].
+Proof. vm_compute. reflexivity. Qed.
+
+Example cleandoc_post_satisfiable :
+  cleandoc_post [lf_nhdr KParams; lf_dash; lf_plain true; lf_text] = true /\
+  lines_wf [lf_nhdr KParams; lf_dash; lf_plain true; lf_text] = true /\
+  cleandoc_post [lf_plain true] = true.
+Proof. repeat split; reflexivity. Qed.
